@@ -223,8 +223,12 @@ fn bin_run(dir: &std::path::Path, texts: &[String], extra: &[String], json_forma
     argv.extend(extra.iter().cloned());
     let res = crate::fam_driver::run_limited(std::process::Command::new(crate::fam_driver::slicec_bin()).args(&argv).current_dir(dir), std::time::Duration::from_secs(60));
     let stderr = String::from_utf8_lossy(&res.stderr).to_string();
-    let errors = stderr.lines().filter(|l| l.contains("\"severity\":\"error\"")).count();
-    let warnings = stderr.lines().filter(|l| l.contains("\"severity\":\"warning\"")).count();
+    // JSON: one object per diagnostic; human format: one header line per diagnostic
+    let (errors, warnings) = if json_format {
+        (stderr.lines().filter(|l| l.contains("\"severity\":\"error\"")).count(), stderr.lines().filter(|l| l.contains("\"severity\":\"warning\"")).count())
+    } else {
+        (stderr.lines().filter(|l| l.starts_with("error [")).count(), stderr.lines().filter(|l| l.starts_with("warning [")).count())
+    };
     let _ = std::fs::remove_dir_all(dir);
     json!({"exit": res.status.and_then(|s| s.code()).unwrap_or(-1), "signal": res.status.and_then(|s| s.signal()).unwrap_or(0), "timed_out": res.timed_out,
            "panicked": stderr.contains("panicked at") || stderr.contains("overflowed its stack"), "errors": errors, "warnings": warnings,
@@ -342,7 +346,9 @@ impl Family for Totality {
             // an accepted program goes all the way: without --dry-run the generator request is built and encoded even when
             // no generator is named; for a rejected one the flag changes nothing, so it is given every other time
             let extra: Vec<String> = if r.accepted || (key >> 12) % 2 == 0 { vec![] } else { vec!["--dry-run".to_owned()] };
-            let mut ev = bin_run(&dir, &texts, &extra, true);
+            // every other run in the human-readable format: the snippets under the diagnostics are computed from the
+            // source text (columns, tabs, multi-byte characters) and are part of reporting a verdict
+            let mut ev = bin_run(&dir, &texts, &extra, (key >> 16) % 2 == 0);
             ev["ev"] = json!("run");
             ev["mode"] = json!("bin");
             ev["fam"] = json!(family_name);
